@@ -479,3 +479,69 @@ func (v *VAtomicValue) Swap(n interface{}) interface{} {
 	atomicPoint(unsafe.Pointer(v))
 	return v.v.Swap(n)
 }
+
+
+// VPool replaces sync.Pool in instrumented code.  Under the scheduler it is a deterministic LIFO that
+// never drops an item: Get returns the most recently Put item.  That is one of the behaviours sync.Pool
+// allows (the one in which recycling happens as often as possible), and it makes executions that depend
+// on recycling reproducible.  Get and Put are scheduling points with the pool as their footprint (the
+// order of pool operations of different threads decides who gets which item), unless they happen
+// inside a section declared atomic or with atomic points switched off.  A pool is emptied when it is
+// first used in a new execution.  Outside the scheduler it is the real pool.
+type VPool struct {
+	New   func() any
+	real  sync.Pool
+	items []any
+	owner *Exec
+	hb    sync.Mutex // gives the race detector the happens-before edge Put -> Get of the real pool
+}
+
+//go:norace
+func (p *VPool) point() {
+	if cur.aborting || cur.checking {
+		return
+	}
+	if t := cur.running; t != nil && t.commHeld == 0 && !cur.noAtomicPoints {
+		block(pending{kind: opYield, pc: callerPC(), obj: uintptr(unsafe.Pointer(p))})
+	}
+}
+
+//go:norace
+func (p *VPool) Get() any {
+	if !controlled {
+		if p.real.New == nil {
+			p.real.New = p.New
+		}
+		return p.real.Get()
+	}
+	p.point()
+	p.hb.Lock()
+	defer p.hb.Unlock()
+	if p.owner != cur {
+		p.owner, p.items = cur, nil
+	}
+	if n := len(p.items); n > 0 {
+		x := p.items[n-1]
+		p.items = p.items[:n-1]
+		return x
+	}
+	if p.New != nil {
+		return p.New()
+	}
+	return nil
+}
+
+//go:norace
+func (p *VPool) Put(x any) {
+	if !controlled {
+		p.real.Put(x)
+		return
+	}
+	p.point()
+	p.hb.Lock()
+	defer p.hb.Unlock()
+	if p.owner != cur {
+		p.owner, p.items = cur, nil
+	}
+	p.items = append(p.items, x)
+}
